@@ -92,7 +92,7 @@ def make_scenarios(ctx, count):
             g2 = dict(glob)
             if rng.random() < 0.8:
                 ns = max(0, min(32768, rng.choice([0, 1, P, P + 1, 3 * P, size // 2 + 1, rng.randint(0, 32768)])))
-                g2.update(icon_seed=rng.randint(1, 2 ** 31), icon_size=ns, _icon_cache=None)
+                g2.update(icon_seed=rng.randint(1, 2 ** 31), icon_size=ns, _icon_cache=None, icon=None)
                 s.add("GSET icon=%s" % G.global_kw(g2)["icon"])
             reqs.append(("newglob", len(globs)))
             reqs.pop()          # (GSET is not an input; the switch is keyed on the Reset's position below)
@@ -219,6 +219,13 @@ def monitor(scn, sobj, rep, sf, ck):
     rep.count("calls_judged", calls)
     for t in types:
         rep.count("types:" + t)
+    if calls:
+        for g in globs:
+            if g["fname"][-2:] == b"\0\0":
+                rep.count("content:friendly-name-ends-in-a-zero-word")
+            ib = G.icon_bytes(g)
+            if ib and ib[-1] == 0:
+                rep.count("content:icon-ends-in-a-zero-byte")
     if calls and len(rep.samples) < 2:
         rep.sample(dict(scenario=scn.sid, mtu=mtu, icon_size=len(G.icon_bytes(glob)), fname_size=len(glob["fname"]),
                         hwid_size=len(G.hwid_effective(glob)), requests=[list(map(str, r)) for r in reqs[1:8]]))
@@ -243,6 +250,8 @@ def run(ctx):
     rep.need("reassemblies", c.get("reassemblies", 0), 1200)
     rep.need("reassemblies_3plus_chunks", c.get("reassemblies_3plus_chunks", 0), 50)
     rep.need("types:unknown", c.get("types:unknown", 0), 100)
+    rep.need("friendly-name-ends-in-a-zero-word", c.get("content:friendly-name-ends-in-a-zero-word", 0), 30)
+    rep.need("icon-ends-in-a-zero-byte", c.get("content:icon-ends-in-a-zero-byte", 0), 10)
     rep.need("second_session_reassemblies", c.get("second_session_reassemblies", 0), 300)
     if ctx.quick:
         sw = H.build(ctx.work, "asan", program="vh_sweep", esp32=False)
